@@ -1,0 +1,54 @@
+//! Verification hooks (only compiled with `--cfg similar_verif`).
+//!
+//! Nothing in here changes the behaviour of the crate unless a test harness
+//! flips one of the thread-local switches below.
+#![allow(missing_docs)]
+
+/// A virtual clock for deadline checks.
+///
+/// When installed on the current thread, every deadline probe that would
+/// have consulted the real clock (i.e. a deadline is present) is answered by
+/// this clock instead: the `k`-th probe (0-based) and all later ones report
+/// that the deadline was exceeded.
+pub mod clock {
+    use std::cell::Cell;
+
+    thread_local! {
+        static EXPIRE_AT: Cell<Option<u64>> = Cell::new(None);
+        static PROBES: Cell<u64> = Cell::new(0);
+        static EXPIRED: Cell<bool> = Cell::new(false);
+    }
+
+    /// Installs (`Some(k)`) or removes (`None`) the virtual clock and resets
+    /// the counters.  `Some(u64::MAX)` never expires.
+    pub fn install(expire_at: Option<u64>) {
+        EXPIRE_AT.with(|c| c.set(expire_at));
+        PROBES.with(|c| c.set(0));
+        EXPIRED.with(|c| c.set(false));
+    }
+
+    /// Number of deadline probes answered since `install`.
+    pub fn probes() -> u64 {
+        PROBES.with(|c| c.get())
+    }
+
+    /// Did a probe already report expiry since `install`?
+    pub fn expired() -> bool {
+        EXPIRED.with(|c| c.get())
+    }
+
+    pub(crate) fn probe() -> Option<bool> {
+        EXPIRE_AT.with(|c| c.get()).map(|k| {
+            let n = PROBES.with(|p| {
+                let v = p.get();
+                p.set(v + 1);
+                v
+            });
+            let exceeded = n >= k;
+            if exceeded {
+                EXPIRED.with(|x| x.set(true));
+            }
+            exceeded
+        })
+    }
+}
